@@ -416,6 +416,13 @@ def iter_describe(it, st, v):
         if k == 'map':
             d = iter_describe(it, st, v.f['inner'])
             return None if d is None else dict(kind='map', n=d['n'], inner=d, f=v.f['f'], elem=None)
+        if k == 'array_into':
+            elems, pos = v.f['elems'], v.f['pos']
+            def elem(st2, kk, elems=elems, pos=pos):
+                if not kk.is_const:
+                    raise Unsupported('symbolic index into a by-value array iterator')
+                return elems[pos + kk.val]
+            return dict(kind='array_into', n=usz(len(elems) - pos), elem=elem)
         if k == 'vec_into':
             o, pos = v.f['buf'], v.f['pos']
             b = st.heap[o]
@@ -484,6 +491,8 @@ def m_zip(it, st, callee, args, dest_tid, site):
     b = args[1]
     if isinstance(b, Slice) or isinstance(b, Ptr):
         b = Opaque('slice_iter', sl=as_slice(it, st, b), pos=usz(0))
+    elif isinstance(b, Agg) and b.kind == 'array':
+        b = Opaque('array_into', elems=tuple(b.fields), pos=0)           # IntoIterator for [T; N] by value
     return [(st, Opaque('zip', a=args[0], b=b, item_tid=None))]
 
 @model('std::iter::Iterator::map', doc='lazy map adapter')
@@ -540,6 +549,8 @@ def advance(it, st, v):
             return v.replace(n=X.binop('sub', v.f['n'], usz(1)))
         if v.kind in ('vec_into', 'chunks'):
             return v.replace(pos=X.binop('add', v.f['pos'], usz(1)))
+        if v.kind == 'array_into':
+            return v.replace(pos=v.f['pos'] + 1)
         if v.kind == 'enumerate':
             return v.replace(inner=advance(it, st, v.f['inner']), count=X.binop('add', v.f['count'], usz(1)))
         if v.kind == 'copied':
@@ -940,3 +951,46 @@ def m_flatten(it, st, callee, args, dest_tid, site):
             flat = Slice(sl.obj, sl.path, X.binop('mul', sl.start, usz(n), wrap=False), X.binop('mul', sl.len, usz(n), wrap=False), sl.mut, n, sl.origin)
             return [(st, Opaque('slice_iter', sl=flat, pos=usz(0)))]
     raise Unsupported(f"flatten of {v!r}")
+
+@model('core::bool::<impl bool>::then', doc='if self { Some(f()) } else { None }')
+def m_bool_then(it, st, callee, args, dest_tid, site):
+    b, f = args
+    dec = it.decide(st, b) if not (isinstance(b, X.E) and b.is_const) else bool(b.val)
+    out = []
+    if dec is not False:
+        s1 = st if dec is True else st.clone()
+        try:
+            if dec is None: s1.assume(b)
+            for s2, v in call_closure_any(it, s1, f, []):
+                out.append((s2, some(it, dest_tid, v)))
+        except PathEnd:
+            pass
+    if dec is not True:
+        try:
+            if dec is None: st.assume(X.unop('not', b))
+            out.append((st, none(it, dest_tid)))
+        except PathEnd:
+            pass
+    return out
+
+@model('core::bool::<impl bool>::then_some', doc='if self { Some(v) } else { None }')
+def m_bool_then_some(it, st, callee, args, dest_tid, site):
+    b, v = args
+    dec = it.decide(st, b) if not (isinstance(b, X.E) and b.is_const) else bool(b.val)
+    if dec is True: return [(st, some(it, dest_tid, v))]
+    if dec is False: return [(st, none(it, dest_tid))]
+    s1 = st.clone(); out = []
+    try:
+        s1.assume(b); out.append((s1, some(it, dest_tid, v)))
+    except PathEnd: pass
+    try:
+        st.assume(X.unop('not', b)); out.append((st, none(it, dest_tid)))
+    except PathEnd: pass
+    return out
+
+@model('std::array::<impl std::iter::IntoIterator for [T; N]>::into_iter', doc='by-value iterator over an array: its elements in order')
+def m_array_into_iter_val(it, st, callee, args, dest_tid, site):
+    a = args[0]
+    if isinstance(a, Agg) and a.kind == 'array':
+        return [(st, Opaque('array_into', elems=tuple(a.fields), pos=0))]
+    raise Unsupported(f"into_iter of {a!r}")
